@@ -85,6 +85,7 @@ def plan(tier, seed):
     shards.append(("shapes",))
     shards += [("grainhist", c) for c in range(4)]
     shards += [("combine", ci) for ci in range(0, len(CELLS), 2 if tier == "quick" else 1)]
+    shards += [("threads_map", c_) for c_ in range(2)]
     shards += [("threads", c) for c in range(2)]
     k = seed % len(shards)
     return shards[k:] + shards[:k]
@@ -512,6 +513,46 @@ def _run_combine(desc):
                         break
             sh.evaluations += 1
             sh.nontrivial += 1
+    # TensorMap.from_stack: three one-layer maps, every pattern of "this layer had its derived maps read before stacking" (they sit in
+    # .maps then): the stack's UB / mt / unitcell / B / U are those of ITS UBI in every layer, the layers are left as they were
+    phase = {0: ucm.unitcell(cells[0], "P")}
+    layers_ubi = []
+    for z in range(3):
+        u = np.array([ubis_for(0, 3 * z + v) for v in range(4)]).reshape(1, 2, 2, 3, 3)
+        if z == 1:
+            u[0, 1, 0] = np.nan
+        layers_ubi.append(u)
+    for pattern in itertools.product((False, True), repeat=3):
+        for cached in (("UB",), ("UB", "U", "B"), ("mt", "unitcell")):
+            with contextlib.redirect_stdout(io.StringIO()):
+                parts = [tm.TensorMap(maps={"UBI": layers_ubi[z].copy(), "phase_ids": np.zeros((1, 2, 2), int)}, phases=phase) for z in range(3)]
+                for z in range(3):
+                    if pattern[z]:
+                        for nm in cached:
+                            getattr(parts[z], nm)
+                before = [{nm: np.array(T_.maps[nm]).copy() for nm in T_.maps} for T_ in parts]
+                comb = tm.TensorMap.from_stack(parts, zstep=1.0)
+            case = {"kind": "combine", "cell": CELLS[ci], "owners": "from_stack", "layers_with_derived_maps_read": list(pattern), "read_before_stacking": list(cached),
+                    "seed": seed_of()}
+            u = np.asarray(comb.UBI)
+            if u.shape != (3, 2, 2, 3, 3) or not np.array_equal(np.isnan(u), np.isnan(np.concatenate(layers_ubi))):
+                sh.violation("TensorMap.from_stack:UBI-of-the-stack-is-not-the-layers", case, {"shape": list(u.shape)})
+                continue
+            if any(set(T_.maps) != set(b_) or any(not np.array_equal(np.asarray(T_.maps[nm]), b_[nm], equal_nan=True) for nm in b_ if np.asarray(b_[nm]).dtype.kind == "f")
+                   for T_, b_ in zip(parts, before)):
+                sh.violation("TensorMap.from_stack:changes-an-input-map", case, {})
+                continue
+            want = {"UB": tm.fast_invert(u), "mt": tm.ubi_to_mt(u)}
+            want["unitcell"] = tm.mt_to_unitcell(want["mt"], dummy6)
+            want["B"] = tm.unitcell_to_b(want["unitcell"], dummy33)
+            want["U"] = tm.ubi_and_b_to_u(u, want["B"])
+            for nm, w in want.items():
+                got = np.asarray(getattr(comb, nm))
+                if got.shape != w.shape or not np.array_equal(np.isnan(got), np.isnan(w)) or not np.allclose(got[~np.isnan(got)], w[~np.isnan(w)], rtol=0, atol=1e-12):
+                    sh.violation("TensorMap.from_stack:%s-of-the-stack-is-not-that-of-its-UBI" % nm, case, {"nan_voxels": int(np.isnan(got).any(axis=-1).sum())})
+                    break
+            sh.evaluations += 1
+            sh.nontrivial += 1
     sh.outcomes.add(("combine", ci))
     sh.sample(case, limit=1)
     return sh
@@ -566,7 +607,65 @@ def _run_threads(desc):
     return sh
 
 
+def _run_threads_map(desc):
+    """two python threads read derived maps (UB, U, B, mt, unitcell) of ONE TensorMap nobody has read before (a thread pool over tiles or
+    layers of one map): every schedule with one preemption at a line of the tensor_map module (engine E7); what a thread is handed is, at
+    the moment it gets it, the map that belongs to the UBI map - complete, NaN only where the UBI is NaN"""
+    _, c = desc
+    from ImageD11 import unitcell as ucm
+    from ImageD11.sinograms import tensor_map as tm
+    from vt import pysched
+    import io, contextlib
+    sh = Shard()
+    R = rotations(seed_of())
+    cell = CELLS[(3 * c) % len(CELLS)]
+    u = np.array([make_ubi(cell, R[(v + c) % len(R)], STRAINS[v % len(STRAINS)]) for v in range(4)]).reshape(1, 2, 2, 3, 3)
+    u[0, 1, 1] = np.nan
+    dummy6, dummy33 = np.arange(6), np.eye(3)
+    want = {"UB": tm.fast_invert(u), "mt": tm.ubi_to_mt(u)}
+    want["unitcell"] = tm.mt_to_unitcell(want["mt"], dummy6)
+    want["B"] = tm.unitcell_to_b(want["unitcell"], dummy33)
+    want["U"] = tm.ubi_and_b_to_u(u, want["B"])
+    modfile = tm.__file__
+    holder = {}
+    pairs = [("UB", "UB"), ("UB", "U"), ("U", "UB"), ("mt", "unitcell"), ("B", "B"), ("U", "U"), ("unitcell", "B")][c::2]
+    nexec = 0
+    for na, nb in pairs:
+        def reset():
+            with contextlib.redirect_stdout(io.StringIO()):
+                holder["T"] = tm.TensorMap(maps={"UBI": u.copy(), "phase_ids": np.zeros((1, 2, 2), int)}, phases={0: ucm.unitcell(cell, "P")})
+
+        def make():
+            return [lambda: np.array(getattr(holder["T"], na)), lambda: np.array(getattr(holder["T"], nb))]
+        for sw, res, err in pysched.explore(make, lambda fr: fr.f_code.co_filename == modfile, bound=1, reset=reset, max_exec=20000):
+            nexec += 1
+            case = {"kind": "threads_map", "c": c, "reads": [na, nb], "switch_at_points": list(sw), "seed": seed_of()}
+            for t, nm in enumerate((na, nb)):
+                if err[t] is not None:
+                    sh.violation("TensorMap.%s:concurrent-read-raises" % nm, dict(case, thread=t), {"error": repr(err[t])[:200]})
+                    break
+                got, w = res[t], want[nm]
+                if got.shape != w.shape or not np.array_equal(np.isnan(got), np.isnan(w)) or not np.allclose(got[~np.isnan(got)], w[~np.isnan(w)], rtol=0, atol=1e-12):
+                    sh.violation("TensorMap.%s:thread-is-handed-a-map-that-is-not-that-of-the-UBI" % nm, dict(case, thread=t),
+                                 {"nan_voxels_handed_out": int(np.isnan(got).any(axis=-1).sum()) if got.ndim > 3 else -1})
+                    break
+            sh.states += 1
+            sh.traces_validated += 1
+            if sh.violations:
+                break
+        sh.evaluations += 1
+        sh.nontrivial += 1
+        if sh.violations:
+            break
+    sh.count("thread_schedules_executed", nexec)
+    sh.outcomes.add(("threads_map", c))
+    sh.sample({"kind": "threads_map", "schedules": nexec}, limit=1)
+    return sh
+
+
 def run_shard(desc):
+    if desc[0] == "threads_map":
+        return _run_threads_map(desc)
     if desc[0] == "threads":
         return _run_threads(desc)
     if desc[0] == "combine":
@@ -584,9 +683,14 @@ def replay(case):
         r2 = _run_threads(("threads", 1))
         v = [x for x in r.violations + r2.violations if x["case"]["grains"] == case["grains"]]
         return (not v), {"violations": v[:3]}
+    if case["kind"] == "threads_map":
+        r = _run_threads_map(("threads_map", case["c"]))
+        v = [x for x in r.violations if x["case"]["reads"] == case["reads"]]
+        return (not v), {"violations": v[:3]}
     if case["kind"] == "combine":
         r = _run_combine(("combine", CELLS.index(case["cell"])))
-        v = [x for x in r.violations if x["case"]["owners"] == case["owners"] and x["case"]["read_before_combining"] == case["read_before_combining"]]
+        keys = ("owners", "read_before_combining", "layers_with_derived_maps_read", "read_before_stacking")
+        v = [x for x in r.violations if all(x["case"].get(k_) == case.get(k_) for k_ in keys)]
         return (not v), {"violations": v[:3]}
     if case["kind"] == "ubi":
         ci = CELLS.index(case["cell"])
